@@ -559,6 +559,71 @@ func c13GoIntegerKinds(c *Ctx) {
 			}
 		}
 	}
+	// several integers beyond int64 in one list: each element decoded keeps its own number
+	{
+		var bigs []*model.Value
+		for _, s := range []string{"36893488147419103232", "-18446744073709551617", "340282366920938463463374607431768211456", "9223372036854775808", "-9223372036854775809", "18446744073709551615", "7"} {
+			n, _ := new(big.Int).SetString(s, 10)
+			bigs = append(bigs, model.IntV(n))
+		}
+		doc := []*model.Value{model.ListV(bigs...)}
+		for _, bin := range []bool{false, true} {
+			var data []byte
+			if bin {
+				enc, err := refbin.Encode(doc, nil)
+				if err != nil {
+					continue
+				}
+				data = enc.Bytes
+			} else {
+				s, err := reftext.Print(doc, nil)
+				if err != nil {
+					continue
+				}
+				data = []byte(s)
+			}
+			c.Eval(1)
+			c.NonTrivial(fmt.Sprintf("biglist|%v", bin))
+			verdict := func() (verdict string) {
+				defer func() {
+					if rec := recover(); rec != nil {
+						verdict = "panic: " + ionx.PanicSite(rec)
+					}
+				}()
+				var ptrs []*big.Int
+				if err := ion.Unmarshal(data, &ptrs); err != nil {
+					return "Unmarshal into []*big.Int: " + err.Error()
+				}
+				var vals []big.Int
+				if err := ion.Unmarshal(data, &vals); err != nil {
+					return "Unmarshal into []big.Int: " + err.Error()
+				}
+				var anys []interface{}
+				if err := ion.Unmarshal(data, &anys); err != nil {
+					return "Unmarshal into []interface{}: " + err.Error()
+				}
+				if len(ptrs) != len(bigs) || len(vals) != len(bigs) || len(anys) != len(bigs) {
+					return fmt.Sprintf("lengths %d %d %d", len(ptrs), len(vals), len(anys))
+				}
+				for i, b := range bigs {
+					if ptrs[i] == nil || ptrs[i].Cmp(b.I) != 0 {
+						return fmt.Sprintf("[]*big.Int element %d is %v, the list says %v", i, ptrs[i], b.I)
+					}
+					if vals[i].Cmp(b.I) != 0 {
+						return fmt.Sprintf("[]big.Int element %d is %v, the list says %v", i, &vals[i], b.I)
+					}
+					img, ok := imageOf(reflect.ValueOf(&anys[i]).Elem(), "", true)
+					if !ok || img.Kind != model.Int || img.I.Cmp(b.I) != 0 {
+						return fmt.Sprintf("[]interface{} element %d is %v, the list says %v", i, anys[i], b.I)
+					}
+				}
+				return ""
+			}()
+			if verdict != "" {
+				numViolate(c, "big-int-list", fmt.Sprintf("list of big ints (binary %v)", bin), data, model.FmtAll(doc), verdict)
+			}
+		}
+	}
 	for i, v := range vals {
 		rv := reflect.ValueOf(v)
 		want, ok := imageOf(rv, "", true)
